@@ -31,6 +31,7 @@ def register(w):
         "self": CLS,
         "params": {"new_ast": "py", "new_type": "py"},
         "ensures": ["same(result._q_ast, new_ast)", "same(result._item_type, new_type)"],
+        "result_attr_is": {"_q_ast": "new_ast", "_item_type": "new_type"},
         "ret": f"obj:{CLS}",
         "fresh": "shallow",
         "modifies": [],
@@ -125,4 +126,117 @@ def register(w):
         "loops": {0: {"invariant": ["has_executor_on_spine(node)",
                                     "same(spine_executor(node), spine_executor(self._q_ast))"]}},
         "properties": ["C12"],
+    })
+
+
+# ---- the three query operators and QMetaData (C11 frame, C01/C12 shape, C16 store) ---------------
+_reg_base = register
+
+
+def register(w):
+    _reg_base(w)
+    U = "func_adl/util_ast.py"
+    T = "func_adl/type_based_replacement.py"
+    C.register(w, {
+        "key": f"{U}::parse_as_ast",
+        "params": {"ast_source": "py", "caller_name": "py"},
+        "raises": {"ValueError": "any"},
+        "ensures": ["isinstance(result, ast.Lambda)", "wf(result)",
+                    "same(result, uf('parsed', ast_source, caller_name))"],
+        "abstract": True, "trusted": True,
+        "assumes": ["parse_as_ast (source recovery, capture, helper inlining: C03 / C04 / C05, "
+                    "bounded there) returns a well-formed Lambda or raises ValueError; for a lambda "
+                    "given as an AST it returns that very object (no copy)"],
+        "properties": ["C11", "C01", "C12"],
+    })
+    C.register(w, {
+        "key": f"{T}::remap_from_lambda",
+        "params": {"o_stream": f"obj:{CLS}", "l_func": "py", "known_types": "py"},
+        "raises": {"ValueError": "any"},
+        "ret": f"tuple(obj:{CLS}, py, py)",
+        # the stream that comes back is the one handed in, wrapped in zero or more MetaData calls
+        # (what callbacks attached); the lambda stays a lambda
+        "ensures": ["md_over(result[0]._q_ast, o_stream._q_ast)",
+                    "isinstance(result[1], ast.Lambda)", "wf(result[1])",
+                    "same(result[0]._q_ast, uf('remap_q', o_stream._q_ast, l_func, known_types))",
+                    "same(result[1], uf('remap_lambda', o_stream._q_ast, o_stream._item_type, l_func, known_types))",
+                    "same(result[2], uf('remap_type', o_stream._q_ast, o_stream._item_type, l_func, known_types))"],
+        "modifies": [],
+        "abstract": True, "trusted": True,
+        "assumes": ["remap_from_lambda (type following: typing / inspect reflection, C07-C10, "
+                    "bounded there) returns (stream, lambda, type) where the stream's query is the "
+                    "given stream's query under zero or more MetaData wrappers, or raises "
+                    "ValueError; it writes to no stream (it may edit the lambda AST it is given in "
+                    "place: the recorded C11 finding for a Lambda object shared by the caller)"],
+        "properties": ["C11", "C01", "C12"],
+    })
+    C.register(w, {
+        "key": f"{F}::_local_simplification",
+        "params": {"a": "py"},
+        "requires": ["isinstance(a, ast.Lambda)", "wf(a)"],
+        "raises": {"ValueError": "any"},
+        "ensures": ["same(result, lower_sugar(a))", "isinstance(result, ast.Lambda)"],
+        "modifies": ["*"],
+        "properties": ["C06", "C01"],
+    })
+    for op, par in (("Select", "f"), ("SelectMany", "func"), ("Where", "filter")):
+        C.register(w, {
+            "key": f"{CLS}.{op}",
+            "self": CLS,
+            "params": {par: "py", "known_types": "py"},
+            "raises": {"ValueError": "any"},
+            # Op(<this stream's query under the MetaData the callbacks attached>, <lambda>), built
+            # on a NEW stream object: the stream the operator is called on is not written
+            "ensures": ["isinstance(result._q_ast, ast.Call)",
+                        "isinstance(result._q_ast.func, ast.Name)",
+                        f"result._q_ast.func.id == '{op}'",
+                        "len(result._q_ast.args) == 2", "len(result._q_ast.keywords) == 0",
+                        "md_over(result._q_ast.args[0], old(self._q_ast))",
+                        "isinstance(result._q_ast.args[1], ast.Lambda)",
+                        "all_legal(result._q_ast.args[1])",
+                        "same(self._q_ast, old(self._q_ast))",
+                        "same(self._item_type, old(self._item_type))",
+                        # exactly: the stream / lambda the type follower returned for the lowered
+                        # form of the recovered lambda (nothing dropped, nothing added)
+                        "same(result._q_ast.args[0], uf('remap_q', old(self._q_ast), "
+                        f"lower_sugar(uf('parsed', {par}, '{op}')), known_types))",
+                        "same(result._q_ast.args[1], uf('remap_lambda', old(self._q_ast), "
+                        f"old(self._item_type), lower_sugar(uf('parsed', {par}, '{op}')), known_types))",
+                        {"Where": "same(result._item_type, old(self._item_type)) and same(uf('remap_type', old(self._q_ast), "
+                                  f"old(self._item_type), lower_sugar(uf('parsed', {par}, '{op}')), known_types), bool)",
+                         "Select": "same(result._item_type, uf('remap_type', old(self._q_ast), "
+                                   f"old(self._item_type), lower_sugar(uf('parsed', {par}, '{op}')), known_types))",
+                         "SelectMany": "same(result._item_type, uf('func_adl_util_types_unwrap_iterable', uf('remap_type', old(self._q_ast), "
+                                   f"old(self._item_type), lower_sugar(uf('parsed', {par}, '{op}')), known_types)))"}[op]],
+            "raises_iff_note": "Where additionally refuses a filter whose type is not bool",
+            "ret": f"obj:{CLS}",
+            "modifies": [],
+            "properties": ["C11", "C01", "C12"],
+        })
+
+
+_reg_ops = register
+
+
+def register(w):
+    _reg_ops(w)
+    C.register(w, {
+        "key": f"{CLS}.QMetaData",
+        "self": CLS,
+        "params": {"metadata": "dict"},
+        "requires": ["is_node(self._q_ast)", "wf(self._q_ast)", "qmd_ok(self._q_ast)",
+                     # representation invariant: the attribute, where present, holds a dictionary
+                     # (QMetaData is its only writer)
+                     "implies(has_qmd(self._q_ast), is_dict(qmd(self._q_ast)))"],
+        "raises": {},
+        # the query is structurally the same tree (nothing a backend, the dump or the hash sees
+        # changes), on a new stream object; the stream QMetaData is called on is not written
+        "ensures": ["same(result._q_ast, old(self._q_ast))",
+                    "same(result._item_type, old(self._item_type))",
+                    "same(self._q_ast, old(self._q_ast))",
+                    "same(self._item_type, old(self._item_type))"],
+        "ret": f"obj:{CLS}",
+        "modifies": [],
+        "loops": {0: {"invariant": []}},
+        "properties": ["C16", "C11"],
     })
